@@ -196,3 +196,67 @@ Example C18_views_example :
   run_batch (fun (c p r : nat) => [(c, p, r)]) 7%nat [10; 20]%nat None (inl 3%nat)
     = Some [[(10, 7, 3)]; [(20, 7, 3)]]%nat.
 Proof. repeat split; try reflexivity. eexists. split; reflexivity. Qed.
+
+(* ================= sampler record shapes (model: Codec/SamplerShapes.v) ================= *)
+From VF Require Import Codec.SamplerShapes Codec.SamplerShapesProofs.
+
+(* Sampler._get_measurement_shapes lists every key once, with the number of measurement operations that carry it
+   (in one moment or in several) and the qid shape they all have *)
+Theorem C18_measurement_shapes_spec : forall c l, measurement_shapes c = Some l ->
+  NoDup (map fst l) /\
+  (forall k n s, In (k, (n, s)) l ->
+     n = instances k (all_operations c) /\ (0 < n)%nat /\
+     forall s', In s' (key_ops k (all_operations c)) -> s' = s) /\
+  (forall k, (0 < instances k (all_operations c))%nat -> exists n s, In (k, (n, s)) l).
+Proof. exact measurement_shapes_spec. Qed.
+Print Assumptions C18_measurement_shapes_spec.
+
+Theorem C18_measurement_shapes_defined : forall c,
+  measurement_shapes c <> None <-> shapes_consistent (all_operations c).
+Proof. exact measurement_shapes_defined. Qed.
+Print Assumptions C18_measurement_shapes_defined.
+
+Theorem C18_measurement_shapes_regroup : forall c1 c2,
+  all_operations c1 = all_operations c2 -> measurement_shapes c1 = measurement_shapes c2.
+Proof. exact measurement_shapes_regroup. Qed.
+Print Assumptions C18_measurement_shapes_regroup.
+
+Theorem C18_instances_moments : forall k c,
+  instances k (all_operations c) = list_sum (map (instances k) c).
+Proof. exact instances_moments. Qed.
+Print Assumptions C18_instances_moments.
+
+Theorem C18_instances_parallel_readout : forall k shapes,
+  instances k (map (fun s => Some (k, s)) shapes) = length shapes.
+Proof. exact instances_parallel_readout. Qed.
+Print Assumptions C18_instances_parallel_readout.
+
+(* ZerosSampler: documented shape (repetitions, instances, qubits), all digits zero ... *)
+Theorem C18_zeros_result_shape : forall reps c r k rc, zeros_result reps c = Some r -> In (k, rc) r ->
+  rec_wf rc = true /\ length (r_data rc) = reps /\
+  r_inst rc = instances k (all_operations c) /\ (0 < r_inst rc)%nat /\
+  (forall s, In s (key_ops k (all_operations c)) -> r_nq rc = length s) /\
+  (forall rep row d, In rep (r_data rc) -> In row rep -> In d row -> d = 0).
+Proof. exact zeros_result_shape. Qed.
+Print Assumptions C18_zeros_result_shape.
+
+(* ... and the same records as a run in which every measurement operation in turn yields zeros *)
+Theorem C18_zeros_result_is_reference : forall reps c r,
+  zeros_result reps c = Some r -> r = reference_result reps c.
+Proof. exact zeros_result_is_reference. Qed.
+Print Assumptions C18_zeros_result_is_reference.
+
+(* non-vacuity: two moments; the first holds two measurements under key 0 (parallel readout), the second a third
+   one next to key 1 and an operation that measures nothing *)
+Definition C18_ex_circuit : mcircuit :=
+  [[Some (0, [2; 2]); Some (0, [2; 2])]; [Some (0, [2; 2]); None; Some (1, [3])]].
+Example C18_shapes_example :
+  measurement_shapes C18_ex_circuit = Some [(0, (3%nat, [2; 2])); (1, (1%nat, [3]))] /\
+  shapes_consistent (all_operations C18_ex_circuit) /\
+  zeros_result 2 C18_ex_circuit
+    = Some [(0, mkRec 3 2 [[[0; 0]; [0; 0]; [0; 0]]; [[0; 0]; [0; 0]; [0; 0]]]); (1, mkRec 1 1 [[[0]]; [[0]]])] /\
+  measurement_shapes [[Some (0, [2; 2]); Some (0, [2])]] = None.
+Proof.
+  split; [reflexivity|]. split; [|split; reflexivity].
+  apply measurement_shapes_defined. discriminate.
+Qed.
